@@ -71,14 +71,26 @@ class UserPred(Predicate[Any]):
         return UPRED[self.id](val)
 
 
+def _latency(val: Any) -> int:
+    """0..3 extra suspensions, larger for small ints and short strings (so earlier elements of
+    the usual test data tend to be slower than later ones)"""
+    if type(val) is int:
+        return 3 - (abs(val) % 4)
+    if type(val) in (str, bytes):
+        return 3 - (len(val) % 4)
+    s = _sized(val)
+    return 0 if s is None else (3 - s % 4)
+
+
 @dataclass
 class UserPredAsync(PredicateAsync[Any]):
     id: int
 
     async def validate_async(self, val: Any) -> bool:
         ASYNC_CHECKS["n"] += 1
-        # id-dependent latency: a later-declared check may well finish first
-        for _ in range((7 - 2 * self.id) % 5):
+        # id- and value-dependent latency: a later-declared check, or the check of a later
+        # element, may well finish first
+        for _ in range((7 - 2 * self.id) % 5 + _latency(val)):
             await asyncio.sleep(0)
         return UPRED[self.id](val)
 
